@@ -61,6 +61,10 @@ def cases(tier, rng):
         for r in range(0, 3 if tier == 'quick' else 4):
             for cs in itertools.combinations(range(0, n + 1), r):
                 yield {'kind': 'lp', 'p': p, 'big': big, 'items': items, 'tail_item': [9, 9, 9], 'tail_len': min(p, 2), 'cuts': list(cs)}
+                if len(cs) == 2:
+                    # bytes-like chunks whose buffer the producer reuses: the un-framer may not keep a reference to a chunk
+                    yield {'kind': 'lp', 'p': p, 'big': big, 'items': items, 'tail_item': [9, 9, 9], 'tail_len': min(p, 2), 'cuts': list(cs),
+                           'carrier': 'memoryview' if (cs[0] + cs[1]) % 2 else 'bytearray'}
     # random
     n_rand = {'quick': 600, 'thorough': 12000, 'search': 800}[tier]
     for _ in range(n_rand):
@@ -86,7 +90,7 @@ def cases(tier, rng):
             n = sum(len(i) + p for i in items) + tail_len
             cuts = sorted(rng.randrange(0, n + 1) for _ in range(rng.choice([0, 1, 2, 3, 6, 12])))
             yield {'kind': 'lp', 'p': p, 'big': big, 'items': items, 'tail_item': tail_item, 'tail_len': tail_len, 'cuts': cuts,
-                   'resub': rng.random() < 0.3}
+                   'resub': rng.random() < 0.3, 'carrier': rng.choice([None, None, 'bytearray', 'memoryview'])}
 
 
 def real(case):
@@ -106,7 +110,7 @@ def real(case):
         t = drive_plain([lp.frame(prefix_size=case['p'], byteorder=order)], [bytes(case['tail_item'])])
         framed += t['steps'][0][0][:case['tail_len']]
     chunks = cut(framed, case['cuts'])
-    r = drive_plain([lp.unframe(prefix_size=case['p'], byteorder=order)], chunks)
+    r = drive_plain([lp.unframe(prefix_size=case['p'], byteorder=order)], chunks, carrier=case.get('carrier'))
     res = {'framed': [list(x) for s in fr['steps'] for x in s],
            'steps': [[list(x) for x in s] for s in r['steps']], 'fin': [list(x) for x in r['fin']], 'end': r['end']}
     if case.get('resub'):
@@ -186,6 +190,8 @@ def tags(case, r):
             t.append('incomplete-tail')
     elif case['tail']:
         t.append('unterminated-tail')
+    if case.get('carrier'):
+        t.append('chunks-as-' + case['carrier'])
     if any(a == b for a, b in zip(case['cuts'], case['cuts'][1:])) or (case['cuts'] and case['cuts'][0] == 0):
         t.append('empty-chunk')
     return t
